@@ -52,6 +52,10 @@ STAGES = {
                                                   CAPSETS='{{}, {"8BITMIME"}, {"SMTPUTF8"}, {"DSN"}, {"ENHANCEDSTATUSCODES"}, {"8BITMIME", "DSN"}, %s}' % ALLCAPS)),
             ('dialandsend-2x1-b2', 'Session', cfg(OP='"DialAndSend"', MAXR='1', DSNS='{"both"}', ENC8='BOOLEAN',
                                                   CAPSETS='{%s, {}}' % ALLCAPS)),
+            # the capability list after STARTTLS replaces the one before it
+            ('starttls-caps-change', 'Session', cfg(OP='"DialAndSend"', N='1', MAXR='1', BUDGET='1', DSNS='{"off", "both"}', ENC8='BOOLEAN',
+                                                    POLICIES='{"mandatory", "opportunistic"}', STARTTLSADV='{TRUE}',
+                                                    CAPSETS='{%s, {"DSN"}, {}}' % ALLCAPS, CAPS2='{{}, {"8BITMIME"}, {"DSN", "SMTPUTF8"}, %s}' % ALLCAPS)),
         ],
         'thorough': [
             ('send-3x3-b3', 'Session', cfg(N='3', MAXR='3', BUDGET='3', CAPSETS='{{}}', CLASSES='{"p5", "drop"}')),
@@ -134,12 +138,16 @@ STAGES = {
                                                 POLICIES='{"mandatory"}', STARTTLSADV='{TRUE}',
                                                 AUTHTYPES='{"PLAIN", "LOGIN", "SCRAM-SHA-256-PLUS", "SCRAM-SHA-1-PLUS", "AUTODISCOVER"}',
                                                 AUTHLISTS='{{"PLAIN", "LOGIN", "CRAM-MD5", "XOAUTH2", "SCRAM-SHA-1", "SCRAM-SHA-256", "SCRAM-SHA-1-PLUS", "SCRAM-SHA-256-PLUS"}}', LOGAUTH='BOOLEAN', LOGGERS='{"capture", "json"}')),
+            # smtp.Client.Close called by another goroutine between two commands of the exchange
+            ('rawauth-concurrent-close', 'Session', cfg(OP='"RawAuth"', N='1', MAXR='1', BUDGET='1', CAPSETS='{{}}', CLASSES='{"xclose"}',
+                                          AUTHTYPES='{"PLAIN-NOENC", "LOGIN-NOENC", "CRAM-MD5", "XOAUTH2", "SCRAM-SHA-1", "SCRAM-SHA-256"}',
+                                          AUTHLISTS='{{"PLAIN", "LOGIN", "CRAM-MD5", "XOAUTH2", "SCRAM-SHA-1", "SCRAM-SHA-256"}}', LOGAUTH='BOOLEAN', LOGGERS='{"capture", "json"}')),
             ('send-after-auth-b1', 'Session', cfg(N='1', MAXR='1', BUDGET='1', CAPSETS='{{}}', CLASSES='{"p5"}',
                                                   AUTHTYPES='{"PLAIN-NOENC", "LOGIN-NOENC", "SCRAM-SHA-256", "XOAUTH2"}',
                                                   AUTHLISTS='{{"PLAIN", "LOGIN", "CRAM-MD5", "XOAUTH2", "SCRAM-SHA-1", "SCRAM-SHA-256", "SCRAM-SHA-1-PLUS", "SCRAM-SHA-256-PLUS"}}', LOGAUTH='BOOLEAN', LOGGERS='{"capture", "std", "json"}')),
         ],
         'thorough': [
-            ('rawauth-b2', 'Session', cfg(OP='"RawAuth"', N='1', MAXR='1', BUDGET='2', CAPSETS='{{}}', CLASSES='{"t4", "p5", "drop", "mal", "wfail"}',
+            ('rawauth-b2', 'Session', cfg(OP='"RawAuth"', N='1', MAXR='1', BUDGET='2', CAPSETS='{{}}', CLASSES='{"t4", "p5", "drop", "mal", "wfail", "xclose"}',
                                           AUTHTYPES='{"PLAIN-NOENC", "LOGIN-NOENC", "CRAM-MD5", "XOAUTH2", "SCRAM-SHA-1", "SCRAM-SHA-256"}',
                                           AUTHLISTS='{{"PLAIN", "LOGIN", "CRAM-MD5", "XOAUTH2", "SCRAM-SHA-1", "SCRAM-SHA-256", "SCRAM-SHA-1-PLUS", "SCRAM-SHA-256-PLUS"}}', LOGAUTH='BOOLEAN', LOGGERS='{"capture", "std", "json"}')),
             ('dial-auth-clear-b2', 'Session', cfg(OP='"Dial"', N='1', MAXR='1', BUDGET='2', CAPSETS='{{}}', CLASSES='{"t4", "p5", "drop", "mal", "wfail"}',
